@@ -17,20 +17,20 @@ open GM
 /-- the panic-capable constructs that are not guarded in a syntactically recognisable way, each with the reason it
 cannot fire -/
 def reviewed : List (String × String) := [
-  ("cmd.buildRunner: c.MustGetRunner", "shipped wiring: C19 (self configuration valid) — a broken wiring fails every run, not input-dependent"),
-  ("cmd.buildRunner: c.MustGetStepValidateParamsExist", "as above"),
-  ("cmd.buildRunner: c.MustGetStepValidateServicesExist", "as above"),
-  ("imports.imports.Alias: index parts[len(parts)-1]", "strings.Split never returns an empty slice"),
-  ("regex.Match: index match[i]", "i ranges over SubexpNames, FindStringSubmatch has that length after MatchString succeeded"),
+  ("cmd.buildRunner: $1.MustGetRunner", "shipped wiring: C19 (self configuration valid) — a broken wiring fails every run, not input-dependent"),
+  ("cmd.buildRunner: $1.MustGetStepValidateParamsExist", "as above"),
+  ("cmd.buildRunner: $1.MustGetStepValidateServicesExist", "as above"),
+  ("imports.imports.Alias: index $1[len($1)-1]", "strings.Split never returns an empty slice"),
+  ("regex.Match: index $1[$2]", "i ranges over SubexpNames, FindStringSubmatch has that length after MatchString succeeded"),
   ("regex.MustCompileAz: regexp.MustCompile", "package-level constants only: compiled at init, every pattern regenerated and parsed by the translator"),
   ("resolver.NonStringPrimitiveResolver.ResolveArg: exporter.MustExport", "only after Supports: non-string primitive"),
-  ("resolver.PatternResolver.ResolveArg: assert i.(string)", "ArgResolver calls ResolveArg only after Supports, which checks for a string"),
-  ("resolver.ServiceResolver.ResolveArg: assert i.(string)", "as above"),
-  ("resolver.TaggedResolver.ResolveArg: assert i.(string)", "as above"),
-  ("resolver.ValueResolver.ResolveArg: assert p.(string)", "as above"),
-  ("runner.DecorateStepVerboseSwitchable: assert payload.Service.(Step)", "theorem verbose_services_are_steps"),
-  ("runner.Printer.EndIndent: slice p.indents[:len(p.indents)-1]", "Indent/EndIndent are paired in StepVerboseSwitchable.Run (deferred)"),
-  ("runner.Printer.PrintAlignedLn: strings.Repeat rowWidth - len([]rune(left+right+strings.Join(p.indents, \"\")))", "theorem repeat_count_nonneg"),
+  ("resolver.PatternResolver.ResolveArg: assert $1.(string)", "ArgResolver calls ResolveArg only after Supports, which checks for a string"),
+  ("resolver.ServiceResolver.ResolveArg: assert $1.(string)", "as above"),
+  ("resolver.TaggedResolver.ResolveArg: assert $1.(string)", "as above"),
+  ("resolver.ValueResolver.ResolveArg: assert $1.(string)", "as above"),
+  ("runner.DecorateStepVerboseSwitchable: assert $1.Service.(Step)", "theorem verbose_services_are_steps"),
+  ("runner.Printer.EndIndent: slice $1.indents[:len($1.indents)-1]", "Indent/EndIndent are paired in StepVerboseSwitchable.Run (deferred)"),
+  ("runner.Printer.PrintAlignedLn: strings.Repeat", "theorem repeat_count_nonneg"),
   ("runner.Printer.Println: panic", "only when the writer fails (stdout closed): environment, not input"),
   ("runner.StepReadConfig.findFiles: exporter.MustExport", "argument is a string"),
   ("token.FactoryFunction.Create: exporter.MustExport", "argument is a string"),
@@ -42,13 +42,16 @@ def recognisedGuards : List String :=
    "full slice", "index by a loop counter into a slice made with that length",
    "index by a range key into a slice made with that length", "index by a sort callback argument",
    "index by the counter of a loop bounded by len of the same slice", "index by the key of a range over the same slice",
-   "index from the end under a length check", "type assertion in comma-ok form"]
+   "index from the end under a length check", "slice from one past a strings index of the same string",
+   "slice past a prefix under an equality or HasPrefix check", "type assertion in comma-ok form"]
 
 /-- **every panic-capable construct of the tool is guarded in a recognised way or is one of the reviewed ones** — the
 inventory is regenerated with go/types on every run; restructuring guarded code changes nothing, a new unguarded
-index, slice, assertion, Must* call or explicit panic is an undischarged obligation -/
+index, slice, assertion, Must* call or explicit panic is an undischarged obligation. Site keys name the function and the construct with local variables numbered in order of appearance
+(renaming a variable or a receiver changes nothing; a second construct with the same key in the same function shows up as
+"… (x 2)"); a reviewed construct that disappears is no obligation -/
 theorem panic_sites_discharged :
-    Generated.panicSites = reviewed.map (·.1) ∧ ∀ g ∈ Generated.guardedSites, g.1 ∈ recognisedGuards := by decide
+    (∀ s ∈ Generated.panicSites, s ∈ reviewed.map (·.1)) ∧ ∀ g ∈ Generated.guardedSites, g.1 ∈ recognisedGuards := by decide
 
 /-- `toExpr` indexes and slices only strings of at least two runes -/
 theorem toExpr_guard (e : List Char) (h : e.length < 2) : Chunk.toExpr e = none := by
@@ -60,12 +63,18 @@ theorem toExpr_guard (e : List Char) (h : e.length < 2) : Chunk.toExpr e = none 
 /-- `GoCode` reads `tkns[0]` only when there is a token -/
 theorem goCode_guard : Token.goCode [] = .error "unexpected error: len(tokens) == 0" := rfl
 
+/-- the constructor (or value) of a wired service names a step of the runner package: `runner.NewStep…` or `runner.Step…` -/
+def hasSub (pat : List Char) : List Char → Bool
+  | [] => pat.isEmpty
+  | c :: cs => pat.isPrefixOf (c :: cs) || hasSub pat cs
+
+def mentionsRunnerStep (c : String) : Bool :=
+  hasSub "runner.NewStep".toList c.toList || hasSub "runner.Step".toList c.toList
+
 /-- every service the verbose decorator is applied to is built by a constructor of a runner step
 (so the unchecked assertion `payload.Service.(Step)` holds for the shipped wiring) -/
 theorem verbose_services_are_steps :
-    ∀ w ∈ Generated.wiring, w.2.2.2.contains "step-runner-verbose" = true →
-      w.2.1 ∈ ["runner.NewStepCodeGenerator", "runner.NewStepCompile", "func:func() interface{} { return runner.StepDefaultInput{} }",
-               "runner.NewStepOutputValidationRule", "runner.NewStepReadConfig", "runner.NewStepAmalgamated"] := by decide
+    ∀ w ∈ Generated.wiring, w.2.2.2.contains "step-runner-verbose" = true → mentionsRunnerStep w.2.1 = true := by decide
 
 /-- the dot filler never gets a negative count: every step / rule name, with the END suffix, the
 widest mark and one level of indentation, fits the 60-column row -/
